@@ -268,6 +268,8 @@ def cmd_check(prop, tier):
 	print(f'[gvsim] property={prop} tier={tier} VERIF_SEED={seed} runs={mod.RUNS[tier]} workers={NCPU} repo={repo_dir()}@{repo_head()}', flush=True)
 	records, keys, states, errors, wall = run_batch(prop, tier, seed)
 	envs = mod.envs(tier)
+	if hasattr(mod, 'cross_check'):
+		errors.extend(mod.cross_check(records))
 	known = load_known()
 	viol = [r for r in records if r.get('violation')]
 	n_known = 0
